@@ -32,6 +32,9 @@ inductive V (ν : Type) where
   | arglist (xs : List (V ν))
   /-- `Value::UnaryOp(Operator::Not, v)`: the unevaluated `not v` the code returns today (C14) -/
   | notOf (v : V ν)
+  /-- `Value::Paren(Box::new(Value::Null))`: what a parenthesised expression that evaluates to
+  `null` becomes today (`sass/value.rs` `Paren` arm keeps the parentheses when `v == Null`) (C14) -/
+  | parenNull
   deriving Repr
 
 /-- Unit conversion table: `conv from to = some f` when `UnitSet::scale_to` gives factor `f`. -/
